@@ -51,6 +51,7 @@ def civil_c05_goals():
            [enforce('civil', 'difference_' + t, timeout=600) for t in ('hour', 'minute', 'second')] + \
            [enforce('civil', 'ct_%s_plus' % t, timeout=600) for t in ts] + \
            [enforce('civil', 'ct_%s_minus' % t, timeout=600) for t in ('minute', 'hour', 'day')] + \
+           [enforce('civil', 'ct_second_minus', timeout=600, defines=['OSEC_OPAQUE'])] + \
            [enforce('civil', 'ct_%s_diff' % t, timeout=600) for t in ts] + \
            [enforce('civil', 'ct_' + r) for r in ('lt', 'le', 'gt', 'ge', 'eq', 'ne')]
 
@@ -136,10 +137,10 @@ PROPERTIES['C05'] = dict(
                'then the scale_add chain, no intermediate overflow), and that the '
                'relational operators are the lexicographic order on the six fields; code-free lemmas show the day ordinal orders valid dates exactly like '
                '(year, month, day) (lemma_dayord_lex), so the order agrees with the sign of the difference.',
-    level_note='operator-(n), including n = INT64_MIN (two-step path), is discharged for the minute, hour and day alignments; for civil_second its value clause times out and is NOT '
-               'discharged. NOT discharged: the month and year alignments (step_month, step_year, ct_month_*, ct_year_*); the two inverse laws as composed lemmas. '
+    level_note='operator-(n), including n = INT64_MIN (two-step path), is discharged for the second, minute, hour and day alignments (civil_second with the second ordinal '
+               'as an opaque symbol, see contracts/civil.h OSEC_OPAQUE). NOT discharged: the month and year alignments (step_month, step_year, ct_month_*, ct_year_*); the two inverse laws as composed lemmas. '
                'These parts are not counted as proved.',
-    not_decided='operator-(n) on civil_second; month and year alignment arithmetic; composed inverse laws',
+    not_decided='month and year alignment arithmetic; composed inverse laws',
     assumptions=[],
 )
 
